@@ -55,6 +55,18 @@ func NewCA(cn string) *CA {
 	return &CA{Key: k, Cert: c, PEM: pem.EncodeToMemory(&pem.Block{Type: "CERTIFICATE", Bytes: der})}
 }
 
+// NewCAFrom creates a self-signed CA whose certificate becomes valid at notBefore.
+func NewCAFrom(cn string, notBefore time.Time) *CA {
+	k, _ := ecdsa.GenerateKey(elliptic.P256(), rand.Reader)
+	t := &x509.Certificate{SerialNumber: nextSerial(), Subject: pkix.Name{CommonName: cn}, NotBefore: notBefore, NotAfter: notBefore.Add(10000 * time.Hour), IsCA: true, BasicConstraintsValid: true, KeyUsage: x509.KeyUsageCertSign | x509.KeyUsageDigitalSignature}
+	der, err := x509.CreateCertificate(rand.Reader, t, t, &k.PublicKey, k)
+	if err != nil {
+		panic(err)
+	}
+	c, _ := x509.ParseCertificate(der)
+	return &CA{Key: k, Cert: c, PEM: pem.EncodeToMemory(&pem.Block{Type: "CERTIFICATE", Bytes: der})}
+}
+
 // Intermediate makes a CA whose certificate is issued by ca.
 func (ca *CA) Intermediate(cn string) *CA {
 	k, _ := ecdsa.GenerateKey(elliptic.P256(), rand.Reader)
